@@ -25,7 +25,8 @@ def sysroot():
 
 
 def ensure_driver():
-    if not os.path.exists(DRIVER):
+    src = os.path.join(VERIF, 'driver', 'src', 'main.rs')
+    if not os.path.exists(DRIVER) or (os.path.exists(src) and os.path.getmtime(src) > os.path.getmtime(DRIVER)):
         env = dict(os.environ, CARGO_NET_OFFLINE='true')
         r = subprocess.run(['cargo', '+nightly', 'build', '--release', '--offline'],
                            cwd=os.path.join(VERIF, 'driver'), env=env,
